@@ -117,6 +117,11 @@ def b_frozenset(ex, st, node, args, kw):
     (x,) = args
     if isinstance(x, VSet):
         return x
+    if isinstance(x, VSeq) and getattr(x, "flat_of", None) is not None:
+        # the candidates of the flattened ranking [c for s in R for c in s]: the union of R's positions
+        from .calls import apply_spec
+        R = x.flat_of
+        return apply_spec(ex, ex.ctx.registry.specs["union_upto"], [R, VNum(z3.Length(R.term), "int")], st)
     if isinstance(x, VSeq):
         simp = x.term
         if z3.is_app(simp) and simp.decl().kind() == z3.Z3_OP_SEQ_UNIT and x.elem is S.Str:
